@@ -17,6 +17,13 @@ CLAIMED = {
         "DESIGN.md section 8, C08",
         "fault enumeration over (state x length x first byte) + seeded adversary sequences",
     ),
+    "C15": (
+        "exploration",
+        "Seeded deterministic simulation of real nodes in four shapes: heterogeneous meshes (2-4 nodes, peer timeouts from {0,1,59,60,119,120,121,300,65535} x keepalive {none,1,30,600,70000}) observed for 3x the largest timeout after warm-up; silence injection at an instant drawn from a 200 s window; a two-node sweep over advertised timeout values (boundary values in quick, every value 0..65535 once in thorough); 48 h back-off runs with 1-2 unreachable configured peers and an optional phase of injected send errors. Oracles: at every announcement scheduling, interval == 1 or interval < min advertised timeout of the current peers (recomputed from the snapshot, not taken from the code); no timeout removal in a stable delivering mesh (all timeouts >= 3 s); a silenced peer is removed, with its routes, at the first housekeeping after its expiry and re-dialled, never earlier; dial attempts to unreachable configured peers never stop and are at most 3600 s (+2 s) apart once faults have stopped; node start and every step must not unwind (overflow checks on).",
+        "Trusted: simulator seams and the 1 s tick model (housekeeping condition evaluated after every event, as in run()). The quick tier caps the observation span of heterogeneous meshes at 3 x 1200 s; meshes containing a timeout < 3 s are observed for 30 s and only the scheduling clause is checked there.",
+        "DESIGN.md section 8, C15",
+        "seeded search over configurations x silence instants x send-error phases; bounded liveness after faults stop",
+    ),
 }
 
 NOT_APPLICABLE = {
